@@ -8,16 +8,28 @@ package rpm
 //@ func compareRPMNonDigits
 //@   comparator a ~ b                                     [C01]
 
+// numeric segments compare as integers of any length ignoring leading zeros
 //@ func compareRPMDigits
 //@   comparator a ~ b                                     [C01]
+//@   ensures shorter: a != "" && b != "" && len(strings.TrimLeft(a, "0")) < len(strings.TrimLeft(b, "0")) ==> result == -1   [C11]
+//@   ensures longer: a != "" && b != "" && len(strings.TrimLeft(a, "0")) > len(strings.TrimLeft(b, "0")) ==> result == 1     [C11]
+//@   ensures same-length: a != "" && b != "" && len(strings.TrimLeft(a, "0")) == len(strings.TrimLeft(b, "0")) ==> result == strings.Compare(strings.TrimLeft(a, "0"), strings.TrimLeft(b, "0"))   [C11]
+
+// everything except letters, digits, '~' and '^' only separates segments
+//@ func isSeparator
+//@   ensures result == (!unicode.IsLetter(r) && !unicode.IsDigit(r) && r != '~' && r != '^')   [C11]
 
 // Two-cursor scanner: outside the loop shapes govc summarises; bounded stand-in.
 //@ func compareRPMVersionString
 //@   bounded alphabet "019a~.^" maxlen 3
 //@   comparator a ~ b                                     [C01]
 
+// epoch, then version, then release
 //@ func (*Version).Compare
 //@   comparator v ~ other                                 [C01]
+//@   ensures epoch: v.epoch != other.epoch ==> result == (v.epoch < other.epoch ? -1 : 1)   [C11]
+//@   ensures version: v.epoch == other.epoch && compareRPMVersionString(v.version, other.version) != 0 ==> result == compareRPMVersionString(v.version, other.version)   [C11]
+//@   ensures release: v.epoch == other.epoch && compareRPMVersionString(v.version, other.version) == 0 ==> result == compareRPMVersionString(v.release, other.release)   [C11]
 
 // ---- constructors: value xor error (C06); the fact is structural (untagged) because callers rely on it
 
